@@ -526,6 +526,7 @@ ADAPTORS = {
     # Option / Poll / Result
     "std::option::Option::<T>::map": {"f": 1, "params": {2: [(0, ())]}, "result": [("ret", (), ())],
                                       "fnitem_result": [(0, (), ())]},
+    "std::option::Option::<T>::inspect": {"f": 1, "params": {2: [(0, ())]}, "result": [(0, (), ())]},
     "std::option::Option::<T>::and_then": {"f": 1, "params": {2: [(0, ())]}, "result": [("ret", (), ())]},
     "std::option::Option::<T>::filter": {"f": 1, "params": {2: [(0, ())]}, "result": [(0, (), ())]},
     "std::task::Poll::<T>::map": {"f": 1, "params": {2: [(0, ())]}, "result": [("ret", (), ())],
@@ -581,6 +582,16 @@ class Src(tuple):
         return self[0]
 
 
+def norm_path(path):
+    """failure tags are idempotent: Break(Err(e)) and Err(e) denote the same error"""
+    out = []
+    for x in path:
+        if x == "E" and out and out[-1] == "E":
+            continue
+        out.append(x)
+    return tuple(out)
+
+
 class Flow:
     def __init__(self, fb):
         self.fb = fb
@@ -616,7 +627,7 @@ class Flow:
 
     # -- public API ----------------------------------------------------------
     def sources_place(self, body, pl, rest=(), mode="prov"):
-        return self.query(("P", body.id, pl["l"], strip_proj(pl["p"]) + tuple(rest), mode))
+        return self.query(("P", body.id, pl["l"], norm_path(strip_proj(pl["p"]) + tuple(rest)), mode))
 
     def sources_operand(self, body, op, rest=(), mode="prov"):
         if op["k"] == "const":
@@ -624,7 +635,7 @@ class Flow:
         return self.sources_place(body, op["pl"], rest, mode)
 
     def sources_local(self, body, local, path=(), mode="prov"):
-        return self.query(("P", body.id, local, tuple(path), mode))
+        return self.query(("P", body.id, local, norm_path(path), mode))
 
     def query(self, key):
         # iterate to a fixpoint over the (monotone) table
@@ -660,7 +671,7 @@ class Flow:
         return fr
 
     def _q(self, body, local, path, mode):
-        return self._eval(("P", body.id, local, tuple(path), mode))
+        return self._eval(("P", body.id, local, norm_path(path), mode))
 
     def _q_operand(self, body, op, rest, mode):
         if op["k"] == "const":
@@ -720,7 +731,8 @@ class Flow:
                     return set()
                 if ops:
                     return self._q_operand(body, ops[0], rest, mode)
-                return {Src(("const", "%s::%s" % (rv["def"], rv.get("variant")), rv["def"]))}
+                # None / Pending / ... carry no payload
+                return set()
             if ak in ("closure", "coroutine", "coroutine_closure") and rest and rest[0] in ("$out", "$item"):
                 # the value produced by running this async block / closure
                 cb = self.fb.bodies.get(rv["def"])
